@@ -210,6 +210,8 @@ Proof.
   destruct (drop_le a0 (changes_from 0 w px)) as [|a1 [|a2 l]]; cbn [incr] in D1; lia.
 Qed.
 
+Ltac slia := repeat match goal with H : forall _, _ |- _ => clear H end; lia.
+
 (* ---- the decoder paints the row ---- *)
 
 Theorem g4_row_paint p refc px lo (cols := Z.of_N (g_cols p)) (w := white_bit p) (linec := changing p px) :
@@ -229,7 +231,7 @@ Theorem g4_row_paint p refc px lo (cols := Z.of_N (g_cols p)) (w := white_bit p)
        colz w px (fst (enc2d_end fuelE p refc linec cols a0 cur)) = snd (enc2d_end fuelE p refc linec cols a0 cur)).
 Proof.
   intros Hlen Hri Hrf.
-  assert (Hcols : cols = Z.of_nat (length px)) by (unfold cols; lia).
+  assert (Hcols : cols = Z.of_nat (length px)) by (unfold cols; slia).
   destruct (changes_from_incr px 0 w) as [Hli0 Hlf0]. change (changes_from 0 w px) with linec in Hli0, Hlf0.
   assert (Hlf : Forall (fun x => x < cols) linec) by (rewrite Hcols; rewrite Z.add_0_l in Hlf0; exact Hlf0).
   induction fuelE as [|fuelE IH]; intros a0 cur pa pc line r rb tail Ha Hg G Hs Hp Hcol.
@@ -243,8 +245,8 @@ Proof.
         rewrite !Hd. reflexivity. }
     apply Z.ltb_lt in Ea. specialize (Hcol Ea).
     pose proof (next_two_spec linec cols a0 (0 - 1) Hli0 Hlf Ea) as Hn.
-    pose proof (next_two_changes w px a0 ltac:(lia)) as Hch.
-    pose proof (next_two_strict w px a0 ltac:(lia)) as Hstr.
+    pose proof (next_two_changes w px a0 ltac:(slia)) as Hch.
+    pose proof (next_two_strict w px a0 ltac:(slia)) as Hstr.
     change (changes_from 0 w px) with linec in Hch, Hstr. rewrite <- Hcols in Hch, Hstr.
     pose proof (find_b1b2_spec p refc cols a0 cur lo Hri Hrf Ea) as Hb.
     destruct (next_two linec cols a0) as [a1 a2]. destruct (find_b1b2 p refc cols a0 cur) as [b1 b2] eqn:Eb.
@@ -252,66 +254,162 @@ Proof.
     destruct st2_values as (V1 & V2 & V3 & V4 & V5).
     (* colours between a0 and a2 *)
     assert (K1 : forall i, Z.max a0 0 <= i < a1 -> pxat px i = cur).
-    { intros i Hi. rewrite <- Hcol. transitivity (colz w px i); [unfold colz; replace (i <? 0) with false by lia; reflexivity|].
-      apply (colour_const w px (Z.to_nat (i - a0)) a0 i); try lia. intros y Hy. apply C1. lia. }
+    { intros i Hi. rewrite <- Hcol. transitivity (colz w px i); [unfold colz; replace (i <? 0) with false by slia; reflexivity|].
+      apply (colour_const w px (Z.to_nat (i - a0)) a0 i); try slia. intros y Hy. apply C1. slia. }
     assert (K2 : a1 < cols -> colz w px a1 = negb cur).
     { intros H1. rewrite (colour_flip w px a1 (C2 H1)). f_equal. rewrite <- Hcol.
-      apply (colour_const w px (Z.to_nat (a1 - 1 - a0)) a0 (a1 - 1)); try lia. intros y Hy. apply C1. lia. }
+      apply (colour_const w px (Z.to_nat (a1 - 1 - a0)) a0 (a1 - 1)); try slia. intros y Hy. apply C1. slia. }
     assert (K3 : forall i, a1 <= i < a2 -> pxat px i = negb cur).
-    { intros i Hi. rewrite <- K2 by lia. transitivity (colz w px i); [unfold colz; replace (i <? 0) with false by lia; reflexivity|].
-      apply (colour_const w px (Z.to_nat (i - a1)) a1 i); try lia. intros y Hy. apply C3. lia. }
+    { intros i Hi. rewrite <- K2 by slia. transitivity (colz w px i); [unfold colz; replace (i <? 0) with false by slia; reflexivity|].
+      apply (colour_const w px (Z.to_nat (i - a1)) a1 i); try slia. intros y Hy. apply C3. slia. }
     assert (K4 : a2 < cols -> colz w px a2 = cur).
-    { intros H2. specialize (Hstr ltac:(lia)). rewrite (colour_flip w px a2 (C4 H2)).
-      replace (colz w px (a2 - 1)) with (negb cur); [destruct cur; reflexivity|]. rewrite <- K2 by lia. symmetry.
-      apply (colour_const w px (Z.to_nat (a2 - 1 - a1)) a1 (a2 - 1)); try lia. intros y Hy. apply C3. lia. }
+    { intros H2. specialize (Hstr ltac:(slia)). rewrite (colour_flip w px a2 (C4 H2)).
+      replace (colz w px (a2 - 1)) with (negb cur); [destruct cur; reflexivity|]. rewrite <- K2 by slia. symmetry.
+      apply (colour_const w px (Z.to_nat (a2 - 1 - a1)) a1 (a2 - 1)); try slia. intros y Hy. apply C3. slia. }
     destruct (b2 <? a1) eqn:Ep.
     + (* pass mode *)
       rewrite <- app_assoc in Hs.
       destruct (dec2d_mode p refc cols a0 cur pa pc line r rb ([false; false; false; true], (st_pass, 0%N)) _
-                  ltac:(cbn; auto) ltac:(cbn [fst snd]; lia) Ea Hg G Hs) as (r2 & rb2 & G2 & R2 & F2).
+                  ltac:(cbn; auto) ltac:(cbn [fst snd]; slia) Ea Hg G Hs) as (r2 & rb2 & G2 & R2 & F2).
       assert (Hp2 : pinv px (fill_row line a0 b2 cur) b2).
-      { apply (fill_pinv px line a0 a0 b2 cur Hp); [left; reflexivity|lia|assumption|]. intros i Hi. apply K1. lia. }
+      { apply (fill_pinv px line a0 a0 b2 cur Hp); [left; reflexivity|slia|assumption|]. intros i Hi. apply K1. slia. }
       assert (Hc2 : b2 < cols -> colz w px b2 = cur).
-      { intros _. rewrite <- Hcol. apply (colour_const w px (Z.to_nat (b2 - a0)) a0 b2); try lia. intros y Hy. apply C1. lia. }
-      destruct (IH b2 cur a0 cur (fill_row line a0 b2 cur) r2 rb2 tail ltac:(lia) ltac:(left; lia) G2 R2 Hp2 Hc2)
+      { intros _. rewrite <- Hcol. apply (colour_const w px (Z.to_nat (b2 - a0)) a0 b2); try slia. intros y Hy. apply C1. slia. }
+      destruct (IH b2 cur a0 cur (fill_row line a0 b2 cur) r2 rb2 tail ltac:(slia) ltac:(left; slia) G2 R2 Hp2 Hc2)
         as (r' & rb' & line' & pa' & pc' & G' & R' & Hg' & F' & P' & C').
       exists r', rb', line', pa', pc'. split; [assumption|]. split; [assumption|]. split; [assumption|]. split; [|split; assumption].
-      intros f. cbn [Nat.add]. rewrite F2. cbn [fst snd]. rewrite Eb. replace (st_pass =? st_pass)%N with true by (clear - V1 V2 V3 V4 V5; lia). apply F'.
+      intros f. cbn [Nat.add]. rewrite F2. cbn [fst snd]. rewrite Eb. replace (st_pass =? st_pass)%N with true by (clear - V1 V2 V3 V4 V5; slia). apply F'.
     + destruct ((-3 <=? a1 - b1) && (a1 - b1 <=? 3)) eqn:Ev.
       * (* vertical mode *)
-        destruct (vert_word (a1 - b1) ltac:(lia)) as (c & Hc & Hbits & Hst & Hd).
+        destruct (vert_word (a1 - b1) ltac:(slia)) as (c & Hc & Hbits & Hst & Hd).
         rewrite <- Hbits in Hs. rewrite <- app_assoc in Hs.
-        destruct (dec2d_mode p refc cols a0 cur pa pc line r rb c _ Hc ltac:(rewrite Hst; lia) Ea Hg G Hs) as (r2 & rb2 & G2 & R2 & F2).
+        destruct (dec2d_mode p refc cols a0 cur pa pc line r rb c _ Hc ltac:(rewrite Hst; slia) Ea Hg G Hs) as (r2 & rb2 & G2 & R2 & F2).
         assert (Hp2 : pinv px (fill_row line a0 a1 cur) a1).
-        { apply (fill_pinv px line a0 a0 a1 cur Hp); [left; reflexivity|lia|assumption|]. exact K1. }
-        destruct (IH a1 (negb cur) a0 cur (fill_row line a0 a1 cur) r2 rb2 tail ltac:(lia)
+        { apply (fill_pinv px line a0 a0 a1 cur Hp); [left; reflexivity|slia|assumption|]. exact K1. }
+        destruct (IH a1 (negb cur) a0 cur (fill_row line a0 a1 cur) r2 rb2 tail ltac:(slia)
                     ltac:(right; destruct cur; discriminate) G2 R2 Hp2 K2) as (r' & rb' & line' & pa' & pc' & G' & R' & Hg' & F' & P' & C').
         exists r', rb', line', pa', pc'. split; [assumption|]. split; [assumption|]. split; [assumption|]. split; [|split; assumption].
         intros f. cbn [Nat.add]. rewrite F2. cbv zeta. rewrite Eb, Hst, Hd.
-        replace (st_vert =? st_pass)%N with false by (clear - V1 V2 V3 V4 V5; lia). replace (st_vert =? st_horiz)%N with false by (clear - V1 V2 V3 V4 V5; lia).
-        replace (st_vert =? st_vert)%N with true by (clear - V1 V2 V3 V4 V5; lia).
-        replace (Z.min (b1 + (a1 - b1)) cols) with a1 by lia. apply F'.
+        replace (st_vert =? st_pass)%N with false by (clear - V1 V2 V3 V4 V5; slia). replace (st_vert =? st_horiz)%N with false by (clear - V1 V2 V3 V4 V5; slia).
+        replace (st_vert =? st_vert)%N with true by (clear - V1 V2 V3 V4 V5; slia).
+        replace (Z.min (b1 + (a1 - b1)) cols) with a1 by slia. apply F'.
       * (* horizontal mode *)
         rewrite <- !app_assoc in Hs.
         destruct (dec2d_mode p refc cols a0 cur pa pc line r rb ([false; false; true], (st_horiz, 0%N)) _
-                    ltac:(cbn; auto) ltac:(cbn [fst snd]; lia) Ea Hg G Hs) as (r2 & rb2 & G2 & R2 & F2).
+                    ltac:(cbn; auto) ltac:(cbn [fst snd]; slia) Ea Hg G Hs) as (r2 & rb2 & G2 & R2 & F2).
         destruct (decode_full_run_rt (Bool.eqb cur (white_bit p)) (g_cols p) (Z.to_N (a1 - Z.max a0 0)) _ r2 rb2 G2 R2
-                    ltac:(unfold cols in *; lia)) as (r3 & rb3 & D3 & G3 & R3).
+                    ltac:(unfold cols in *; slia)) as (r3 & rb3 & D3 & G3 & R3).
         destruct (decode_full_run_rt (negb (Bool.eqb cur (white_bit p))) (g_cols p) (Z.to_N (a2 - a1)) _ r3 rb3 G3 R3
-                    ltac:(unfold cols in *; lia)) as (r4 & rb4 & D4 & G4 & R4).
+                    ltac:(unfold cols in *; slia)) as (r4 & rb4 & D4 & G4 & R4).
         assert (Hp1 : pinv px (fill_row line (Z.max a0 0) a1 cur) a1).
-        { apply (fill_pinv px line a0 (Z.max a0 0) a1 cur Hp); [right; reflexivity|lia|assumption|]. exact K1. }
+        { apply (fill_pinv px line a0 (Z.max a0 0) a1 cur Hp); [right; reflexivity|slia|assumption|]. exact K1. }
         assert (Hp2 : pinv px (fill_row (fill_row line (Z.max a0 0) a1 cur) a1 a2 (negb cur)) a2).
-        { apply (fill_pinv px _ a1 a1 a2 (negb cur) Hp1); [left; reflexivity|lia|lia|]. intros i Hi. apply K3. lia. }
+        { apply (fill_pinv px _ a1 a1 a2 (negb cur) Hp1); [left; reflexivity|slia|slia|]. intros i Hi. apply K3. slia. }
         destruct (IH a2 cur a0 cur
-                    (fill_row (fill_row line (Z.max a0 0) a1 cur) a1 a2 (negb cur)) r4 rb4 tail ltac:(lia) ltac:(left; lia) G4 R4 Hp2 K4)
+                    (fill_row (fill_row line (Z.max a0 0) a1 cur) a1 a2 (negb cur)) r4 rb4 tail ltac:(slia) ltac:(left; slia) G4 R4 Hp2 K4)
           as (r' & rb' & line' & pa' & pc' & G' & R' & Hg' & F' & P' & C').
         exists r', rb', line', pa', pc'. split; [assumption|]. split; [assumption|]. split; [assumption|]. split; [|split; assumption].
         intros f. cbn [Nat.add]. rewrite F2. cbv zeta. cbn [fst snd]. rewrite Eb.
-        replace (st_horiz =? st_pass)%N with false by (clear - V1 V2 V3 V4 V5; lia). replace (st_horiz =? st_horiz)%N with true by (clear - V1 V2 V3 V4 V5; lia).
+        replace (st_horiz =? st_pass)%N with false by (clear - V1 V2 V3 V4 V5; slia). replace (st_horiz =? st_horiz)%N with true by (clear - V1 V2 V3 V4 V5; slia).
         rewrite D3, D4.
-        replace (Z.min (Z.of_N (Z.to_N (a1 - Z.max a0 0))) (cols - Z.max a0 0)) with (a1 - Z.max a0 0) by lia.
-        replace (Z.max a0 0 + (a1 - Z.max a0 0)) with a1 by lia.
-        replace (Z.min (Z.of_N (Z.to_N (a2 - a1))) (cols - a1)) with (a2 - a1) by lia.
-        replace (a1 + (a2 - a1)) with a2 by lia. apply F'.
+        replace (Z.min (Z.of_N (Z.to_N (a1 - Z.max a0 0))) (cols - Z.max a0 0)) with (a1 - Z.max a0 0) by slia.
+        replace (Z.max a0 0 + (a1 - Z.max a0 0)) with a1 by slia.
+        replace (Z.min (Z.of_N (Z.to_N (a2 - a1))) (cols - a1)) with (a2 - a1) by slia.
+        replace (a1 + (a2 - a1)) with a2 by slia. apply F'.
+Qed.
+
+(* ---- the encoder's steps: each writes at least one bit, and S (S cols) of them reach the end of the row ---- *)
+
+Lemma vert_bits_nonempty delta : -3 <= delta <= 3 -> (1 <= length (vert_bits delta))%nat.
+Proof.
+  intros H. assert (delta = -3 \/ delta = -2 \/ delta = -1 \/ delta = 0 \/ delta = 1 \/ delta = 2 \/ delta = 3) as Hd by lia.
+  destruct Hd as [-> | [-> | [-> | [-> | [-> | [-> | ->]]]]]]; cbn; lia.
+Qed.
+
+Lemma enc2d_steps p refc linec cols : forall fuel a0 cur,
+  exists n, (n <= length (enc2d fuel p refc linec cols a0 cur))%nat /\
+    enc2d n p refc linec cols a0 cur = enc2d fuel p refc linec cols a0 cur /\
+    enc2d_end n p refc linec cols a0 cur = enc2d_end fuel p refc linec cols a0 cur.
+Proof.
+  induction fuel as [|fuel IH]; intros a0 cur.
+  - exists 0%nat. repeat split; cbn; lia.
+  - cbn [enc2d enc2d_end]. destruct (a0 <? cols) eqn:Ea.
+    2:{ exists 0%nat. cbn [enc2d enc2d_end length]. repeat split. lia. }
+    destruct (next_two linec cols a0) as [a1 a2] eqn:En. destruct (find_b1b2 p refc cols a0 cur) as [b1 b2] eqn:Eb.
+    cbv zeta. destruct (b2 <? a1) eqn:Ep; [|destruct ((-3 <=? a1 - b1) && (a1 - b1 <=? 3)) eqn:Ev].
+    + destruct (IH b2 cur) as (n & L & E1 & E2). exists (S n). cbn [enc2d enc2d_end]. rewrite Ea, En, Eb, Ep, E1, E2.
+      repeat split. rewrite app_length. cbn [length]. lia.
+    + destruct (IH a1 (negb cur)) as (n & L & E1 & E2). exists (S n). cbn [enc2d enc2d_end]. rewrite Ea, En, Eb, Ep. cbv zeta.
+      rewrite Ev, E1, E2. repeat split. rewrite app_length. pose proof (vert_bits_nonempty (a1 - b1) ltac:(lia)). lia.
+    + destruct (IH a2 cur) as (n & L & E1 & E2). exists (S n). cbn [enc2d enc2d_end]. rewrite Ea, En, Eb, Ep. cbv zeta.
+      rewrite Ev, E1, E2. repeat split. rewrite !app_length. cbn [length]. lia.
+Qed.
+
+Lemma enc2d_reach p refc linec lo lo' cols :
+  incr lo refc -> Forall (fun x => x < cols) refc -> incr lo' linec -> Forall (fun x => x < cols) linec ->
+  forall fuel a0 cur, a0 <= cols -> cols - a0 <= Z.of_nat fuel -> fst (enc2d_end fuel p refc linec cols a0 cur) = cols.
+Proof.
+  intros Hri Hrf Hli Hlf. induction fuel as [|fuel IH]; intros a0 cur H1 H2.
+  - cbn. lia.
+  - cbn [enc2d_end]. destruct (a0 <? cols) eqn:Ea; [|cbn; lia]. apply Z.ltb_lt in Ea.
+    pose proof (next_two_spec linec cols a0 lo' Hli Hlf Ea) as Hn.
+    pose proof (find_b1b2_spec p refc cols a0 cur lo Hri Hrf Ea) as Hb.
+    destruct (next_two linec cols a0) as [a1 a2]. destruct (find_b1b2 p refc cols a0 cur) as [b1 b2].
+    cbv zeta. destruct (b2 <? a1); [|destruct ((-3 <=? a1 - b1) && (a1 - b1 <=? 3))]; apply IH; lia.
+Qed.
+
+Lemma changing_bound p row : let refc := changing p (row_px p row) in
+  incr (0 - 1) refc /\ Forall (fun x => x < Z.of_N (g_cols p)) refc.
+Proof.
+  cbv zeta. unfold changing. destruct (changes_from_incr (row_px p row) 0 (white_bit p)) as [I1 I2]. split; [assumption|].
+  eapply Forall_impl; [|exact I2]. cbn beta. intros y Hy.
+  assert (length (row_px p row) <= N.to_nat (g_cols p))%nat by (unfold row_px; rewrite firstn_length; lia). lia.
+Qed.
+
+Lemma row_px_length p row : row_ok p row -> length (row_px p row) = N.to_nat (g_cols p).
+Proof.
+  intros (Hl & _ & _). unfold row_px. rewrite firstn_length, flat_bits_length, Hl. unfold line_bytes.
+  pose proof (N.div_mod (g_cols p + 7) 8 ltac:(lia)). pose proof (N.mod_lt (g_cols p + 7) 8 ltac:(lia)). lia.
+Qed.
+
+Lemma pinv_full p row line : row_ok p row -> pinv (row_px p row) line (Z.of_N (g_cols p)) -> line = flat_map bits8 row.
+Proof.
+  intros Hok [Pl Pn]. pose proof (row_px_length p row Hok) as Hpx. destruct Hok as (Hl & _ & Hpad).
+  assert (Hb : bytes_for (Z.of_N (g_cols p)) = (8 * line_bytes p)%nat).
+  { unfold bytes_for, line_bytes. rewrite Z.max_l by lia. f_equal.
+    rewrite <- (N2Z.id ((g_cols p + 7) / 8)), N2Z.inj_div, N2Z.inj_add. rewrite Z_N_nat. reflexivity. }
+  apply (nth_ext _ _ false false); [rewrite Pl, Hb, flat_bits_length, Hl; reflexivity|].
+  intros i Hi. rewrite (Pn i Hi). set (all := flat_map bits8 row) in *.
+  assert (Hall : all = row_px p row ++ repeat false (8 * line_bytes p - N.to_nat (g_cols p))).
+  { rewrite <- Hpad. unfold row_px. fold all. symmetry. apply firstn_skipn. }
+  destruct (Z.of_nat i <? Z.of_N (g_cols p)) eqn:E.
+  - apply Z.ltb_lt in E. unfold pxat. rewrite Nat2Z.id. rewrite Hall, app_nth1 by lia. reflexivity.
+  - apply Z.ltb_ge in E. rewrite Hall, app_nth2 by lia. symmetry. apply nth_repeat.
+Qed.
+
+(* one row: the decoder loop on the row's code yields the row and stops right behind the code *)
+Theorem g4_row_dec p ref row r rb tail (cols := Z.of_N (g_cols p)) :
+  (0 < g_cols p)%N -> row_ok p row -> good r rb -> real r rb = row2d_bits p ref row ++ tail ->
+  exists r' rb', good r' rb' /\ real r' rb' = tail /\
+    dec2d (S (S (bits_left r))) p (changing p (row_px p ref)) cols (-1) (white_bit p) (-2) (negb (white_bit p)) [] r
+    = (flat_map bits8 row, r').
+Proof.
+  intros Hc Hok G R. pose proof (row_px_length p row Hok) as Hpx.
+  destruct (changing_bound p ref) as [Ri Rf]. destruct (changing_bound p row) as [Li Lf].
+  set (refc := changing p (row_px p ref)) in *. set (linec := changing p (row_px p row)) in *.
+  unfold row2d_bits in R. fold refc linec cols in R.
+  destruct (enc2d_steps p refc linec cols (S (S (N.to_nat (g_cols p)))) (-1) (white_bit p)) as (n & Ln & E1 & E2).
+  rewrite <- E1 in R.
+  assert (Hend : fst (enc2d_end n p refc linec cols (-1) (white_bit p)) = cols).
+  { rewrite E2. apply (enc2d_reach p refc linec (0 - 1) (0 - 1) cols Ri Rf Li Lf); unfold cols; lia. }
+  destruct (g4_row_paint p refc (row_px p row) (0 - 1) Hpx Ri Rf n (-1) (white_bit p) (-2) (negb (white_bit p)) [] r rb tail
+              ltac:(lia) ltac:(left; lia) G R) as (r' & rb' & line' & pa' & pc' & G' & R' & _ & F' & P' & _).
+  { split; [reflexivity|]. intros i Hi. cbn in Hi. lia. }
+  { intros _. reflexivity. }
+  fold linec cols in F', P'. rewrite Hend in F', P'.
+  exists r', rb'. split; [assumption|]. split; [assumption|].
+  pose proof (real_le_bits_left r rb G) as Hbl. rewrite R, app_length in Hbl. rewrite E1 in Hbl.
+  replace (S (S (bits_left r))) with (n + (S (S (bits_left r)) - n))%nat by lia. rewrite F'.
+  rewrite (pinv_full p row line' Hok P').
+  destruct (S (S (bits_left r)) - n)%nat; cbn [dec2d]; [reflexivity|]. fold cols. rewrite Z.ltb_irrefl. reflexivity.
 Qed.
